@@ -1363,11 +1363,11 @@ class WcParse(Generic[AnyStr]):
                     # Replace the last path separator
                     current[-1] = _NEED_SEP.format(self.sep)
                     current.append(value)
-                self.consume_path_sep(i)
                 current.append(sep)
             elif self.globstar_capture and not capture:
                 # Merged with the previous `globstar`: `***` makes the merged one follow symlinks (no capture)
                 current[-2] = value
+            self.consume_path_sep(i)
             self.set_start_dir()
         else:
             current.append(value)
